@@ -565,16 +565,19 @@ MixPlan(pair, nv, sl, d, rf, psid) ==
 (* the smallest eigenvalue (1: >= -1e-9.n.max|K| ; -1: < -1e-6.max|K| ; 0:      *)
 (* between, inconclusive).                                                   *)
 
-\* an offer record: [s, d, listed, consistent, built, pn, pd, admitted, space]
+\* an offer record: [s, d, listed, consistent, built, pn, pd, admitted]: listed by CovFactory::getCovList for the
+\* dimension; consistent = CovAniso::isConsistent with the shape parameter pn/pd set (-1 not examined);
+\* admitted = the parameter is accepted; built = a Model holding the structure could be created
 OfferBad(o) ==
   IF o.s \notin Names THEN {"unknown-structure"}
-  ELSE LET e == Entry(o.s)  p == Q(o.pn, o.pd) IN
+  ELSE LET e == Entry(o.s)  p == Q(o.pn, o.pd)
+           offered == o.listed = 1 /\ o.consistent = 1 IN
        (IF e.space # "rn" /\ o.listed = 1 THEN {"listed-without-covariance-in-Rd"} ELSE {})
-       \cup (IF e.space = "rn" /\ o.listed = 1 /\ (e.par = 0 \/ o.admitted = 1) /\ o.d >= InvalidFrom(e, p)
+       \cup (IF e.space = "rn" /\ offered /\ (e.par = 0 \/ o.admitted = 1) /\ o.d >= InvalidFrom(e, p)
              THEN {"listed-in-a-dimension-where-invalid"} ELSE {})
-       \cup (IF e.space = "rn" /\ o.listed = 0 /\ o.built = 1 /\ o.d >= InvalidFrom(e, p) /\ e.dim = "max"
+       \cup (IF e.space = "rn" /\ ~offered /\ o.built = 1 /\ o.d >= InvalidFrom(e, p)
              THEN {"built-beyond-declared-dimension"} ELSE {})
-       \cup (IF o.listed # o.consistent /\ e.space = "rn" THEN {"list-and-isConsistent-disagree"} ELSE {})
+       \cup (IF e.space = "rn" /\ e.par = 0 /\ o.listed # o.consistent THEN {"list-and-isConsistent-disagree"} ELSE {})
 
 \* a verdict record of the PSD runs: [s, pn, pd, d, sym, cls] ; the obligation is recomputed here
 PsdBad(v) ==
